@@ -68,9 +68,9 @@ Print Assumptions c01_oracle_run.
 (** ... and every session (sequence of runs against the same agent), where it
     also demands that no two sign requests carry the same challenge; this
     needs the entropy stream to be injective. *)
-Theorem c01_oracle_session : forall dir chal keypair rs s,
+Theorem c01_oracle_session : forall chal keypair rs s,
   Injective chal ->
-  oracle_c01_session dir rs (snd (session dir chal keypair rs s)) = true.
+  oracle_c01_session rs (snd (session chal keypair rs s)) = true.
 Proof. exact oracle_c01_session_model. Qed.
 Print Assumptions c01_oracle_session.
 
@@ -129,17 +129,42 @@ Print Assumptions c01_replay_defeated.
 (** ... in every history: after any sequence of runs (any behaviours that
     cannot name a future challenge), a run in which the agent replays an
     earlier signature is refused and changes nothing. *)
-Theorem c01_histories_replay : forall dir chal keypair rs s0 s1 os ri i c p a pk,
+Theorem c01_histories_replay : forall chal keypair rs s0 s1 os ri i c p a pk,
   Injective chal ->
   sigs_past chal (s_cdraws s0) (s_sigs s0) ->
   Forall (fun ri => beh_blind chal (ri_beh ri)) rs ->
-  session dir chal keypair rs s0 = (s1, os) ->
+  session chal keypair rs s0 = (s1, os) ->
   ri_beh ri = Replay i -> ri_handlers ri = [Regular c] -> ri_params ri = Some p ->
-  p_attrs p = Some a -> registered_key dir (p_logname p) = Some pk ->
-  let '(s2, o) := run_once dir chal keypair ri s1 in
+  p_attrs p = Some a -> registered_key (ri_dir ri) (p_logname p) = Some pk ->
+  let '(s2, o) := run_once chal keypair ri s1 in
   o_res o = Some KAllAuthFailed /\ forallb auth_only (o_log o) = true /\ o_store o = s_store s1.
 Proof. exact replay_rejected_in_histories. Qed.
 Print Assumptions c01_histories_replay.
+
+(** The directory of the run decides: after any history (whatever earlier
+    runs saw registered - including the key the agent still holds), a run whose
+    own directory registers another key for the login name refuses a requester
+    signing with the old one, and a run whose directory has no parsable key for
+    the name refuses everybody; in both cases nothing is generated, signed or
+    added. *)
+Theorem c01_stale_key_refused : forall chal keypair rs s0 s1 os ri held c p a pk,
+  session chal keypair rs s0 = (s1, os) ->
+  ri_beh ri = Honest held \/ ri_beh ri = SignsWith held -> held <> pk ->
+  ri_handlers ri = [Regular c] -> ri_params ri = Some p -> p_attrs p = Some a ->
+  registered_key (ri_dir ri) (p_logname p) = Some pk ->
+  let '(s2, o) := run_once chal keypair ri s1 in
+  o_res o = Some KAllAuthFailed /\ forallb auth_only (o_log o) = true /\ o_store o = s_store s1.
+Proof. exact stale_key_refused_in_histories. Qed.
+Print Assumptions c01_stale_key_refused.
+
+Theorem c01_unregistered_refused : forall chal keypair rs s0 s1 os ri c p a,
+  session chal keypair rs s0 = (s1, os) ->
+  ri_handlers ri = [Regular c] -> ri_params ri = Some p -> p_attrs p = Some a ->
+  registered_key (ri_dir ri) (p_logname p) = None ->
+  let '(s2, o) := run_once chal keypair ri s1 in
+  o_res o = Some KAllAuthFailed /\ o_log o = [EvAuth 0] /\ o_store o = s_store s1.
+Proof. exact unregistered_refused_in_histories. Qed.
+Print Assumptions c01_unregistered_refused.
 
 (** First success wins: the generating handler is the first, in order, that
     accepted (for a foreign handler: whose Authenticate returned nil; for the
@@ -195,10 +220,24 @@ Proof. vm_compute. reflexivity. Qed.
 
 (** A replay of the first run's signature in a second run is refused. *)
 Example c01_ex_replay :
-  let rs := [mkRunIn (Some ex_params) [Regular ex_conf] (Honest 7) (fun _ => None) (fun _ => SOk [SCert 200 900] []);
-             mkRunIn (Some ex_params) [Regular ex_conf] (Replay 0) (fun _ => None) (fun _ => SOk [SCert 201 901] [])] in
-  map o_res (snd (session ex_dir (fun n => 100 + N.of_nat n) (fun n => 200 + N.of_nat n) rs (init_state [])))
+  let rs := [mkRunIn ex_dir (Some ex_params) [Regular ex_conf] (Honest 7) (fun _ => None) (fun _ => SOk [SCert 200 900] []);
+             mkRunIn ex_dir (Some ex_params) [Regular ex_conf] (Replay 0) (fun _ => None) (fun _ => SOk [SCert 201 901] [])] in
+  map o_res (snd (session (fun n => 100 + N.of_nat n) (fun n => 200 + N.of_nat n) rs (init_state [])))
   = [None; Some KAllAuthFailed].
+Proof. vm_compute. reflexivity. Qed.
+
+(** The registered key is rotated between two runs through the same handler:
+    the requester who still holds the old key is refused, the one holding the
+    new key is served; after the file is removed everybody is refused. *)
+Definition ex_dir_rotated (n : str) : option file := if str_eqb n (tx "alice.pub") then Some (Key 8) else None.
+Example c01_ex_rotated :
+  let ok := fun (k : N) (_ : nat) => SOk [SCert k 900] [] in
+  let rs := [mkRunIn ex_dir (Some ex_params) [Regular ex_conf] (Honest 7) (fun _ => None) (ok 200);
+             mkRunIn ex_dir_rotated (Some ex_params) [Regular ex_conf] (Honest 7) (fun _ => None) (ok 201);
+             mkRunIn ex_dir_rotated (Some ex_params) [Regular ex_conf] (Honest 8) (fun _ => None) (ok 201);
+             mkRunIn (fun _ => None) (Some ex_params) [Regular ex_conf] (Honest 8) (fun _ => None) (ok 202)] in
+  map o_res (snd (session (fun n => 100 + N.of_nat n) (fun n => 200 + N.of_nat n) rs (init_state [])))
+  = [None; Some KAllAuthFailed; None; Some KAllAuthFailed].
 Proof. vm_compute. reflexivity. Qed.
 
 (** The injectivity premise is satisfiable. *)
